@@ -26,11 +26,17 @@ impl Line {
         &self.inlines
     }
 
-    pub fn ref_keys(&self) -> Vec<Key> {
-        self.inlines.iter().flat_map(|i| i.ref_keys()).collect()
+    pub fn ref_keys(&self, relative_to: &str) -> Vec<Key> {
+        self.inlines
+            .iter()
+            .flat_map(|i| i.ref_keys(relative_to))
+            .collect()
     }
 
-    pub fn normalize(&self, context: impl InlinesContext) -> GraphInlines {
-        self.inlines.iter().map(|i| i.normalize(context)).collect()
+    pub fn normalize(&self, context: impl InlinesContext, relative_to: &str) -> GraphInlines {
+        self.inlines
+            .iter()
+            .map(|i| i.normalize(context, relative_to))
+            .collect()
     }
 }
